@@ -758,6 +758,15 @@ pub fn emit(prop: &str, g: &mut Gen, out: &mut Vec<String>) {
                 0 => {
                     let j = g.jdn(&oc);
                     push(out, format!("at_jdn {ct} {j}"));
+                    // the same day reached by conversion from another calendar (mostly from a
+                    // reforming one, in the year of its reformation) and then stepped: still a date
+                    // of the proleptic calendar, still labelled by the definition
+                    if g.rng.chance(1, 3) {
+                        let (c2, o2) = g.reforming_cal();
+                        let j2 = g.jdn(&o2);
+                        let steps = *g.rng.pick(&["s", "p", "s s", "p p", "s p", "L", "E", "A", "a"]);
+                        push(out, format!("hist {c2} {j2} c{ct} {steps}"));
+                    }
                 }
                 1 => {
                     let (y, m, d) = g.ymd(&oc);
@@ -911,6 +920,11 @@ pub fn emit(prop: &str, g: &mut Gen, out: &mut Vec<String>) {
             push(out, format!("shape {ct} {y} {m}"));
             push(out, format!("shapeq {ct} {y} {m} {d}"));
             push(out, format!("shapeq {ct} {y} {m} {}", g.rng.range(0, 33)));
+            // the day list taken from both ends in one iterator (a walk that restarts its range
+            // when it meets the gap must not forget what the other end has already yielded)
+            if g.rng.chance(1, 3) {
+                push(out, format!("days_ops {ct} {y} {m} {}", g.ops_for(40, 31)));
+            }
             // equality and hashing of shapes: the same month in another calendar, a neighbouring
             // month or year in the same one
             if g.rng.chance(1, 3) {
@@ -1099,7 +1113,7 @@ pub fn emit(prop: &str, g: &mut Gen, out: &mut Vec<String>) {
                     "Thur", "", "Ma", "Mayo", "Juno",
                 ];
                 let base = *g.rng.pick(&names);
-                let s: String = match g.rng.below(11) {
+                let s: String = match g.rng.below(12) {
                     8 | 9 => {
                         // a window of a table of names laid end to end (a lookup that scans a packed
                         // table may accept a hit that straddles two entries), optionally followed by
@@ -1126,6 +1140,14 @@ pub fn emit(prop: &str, g: &mut Gen, out: &mut Vec<String>) {
                             1 => w.to_uppercase(),
                             _ => w,
                         }
+                    }
+                    11 => {
+                        // a valid name followed by padding up to a length that a truncated length
+                        // field would confuse with the name's own (256, 512, 65536 more bytes)
+                        let pad = *g.rng.pick(&[256usize, 256, 512, 65536, 255, 257]);
+                        let fill = *g.rng.pick(&[' ', 'x', 'a', '.', '\u{1}']);
+                        let head = if g.rng.chance(1, 2) { base.to_lowercase() } else { base.to_string() };
+                        format!("{head}{}", std::iter::repeat(fill).take(pad).collect::<String>())
                     }
                     10 => {
                         // the head of one name and the tail of another
